@@ -17,6 +17,7 @@ package main
 //     records whose bank was not closed are compared with what was written.
 
 import (
+	"bufio"
 	"bytes"
 	"errors"
 	"fmt"
@@ -24,9 +25,12 @@ import (
 	"reflect"
 	"runtime"
 	"runtime/debug"
+	"strings"
+	"time"
 	"unsafe"
 
 	"github.com/philpearl/avro"
+	avrotime "github.com/philpearl/avro/time"
 )
 
 func init() { props["C10"] = prop{gen: genC10, exec: execC10} }
@@ -41,6 +45,8 @@ func execC10(op string, a []sx) sx {
 		return execBankOps(a[0].list)
 	case "fileretain":
 		return execFileRetain(a[0].atom, int(a[1].int()), int(a[2].int()), a[3].int(), int(a[4].int()))
+	case "timeretain":
+		return execTimeRetain(a[0].atom, a[1].int())
 	}
 	panic("harness: unknown C10 case " + op)
 }
@@ -749,6 +755,80 @@ func execFileRetain(codec string, bs, nrecs int, seed int64, closePct int) sx {
 	return T("ok", A(fmt.Sprintf("kept=%d", nkept)), A(fmt.Sprintf("closed=%d", nclosed)), A(fmt.Sprintf("blocks=%d", nblocks)))
 }
 
+type c10TRec struct {
+	T time.Time `json:"t"`
+	S string    `json:"s"`
+}
+
+// execTimeRetain: (timeretain codec seed): records holding a time.Time (carried as an RFC 3339 string with a numeric offset the
+// process has probably not seen before) in a multi-block file; everything reachable from a retained record - the instant, the
+// offset AND the name of its *time.Location - is snapshotted in the callback and compared after the remaining blocks were read.
+func execTimeRetain(codec string, seed int64) sx {
+	avrotime.RegisterCodecs()
+	rng := rand.New(rand.NewSource(seed))
+	n := 24 + rng.Intn(16)
+	want := make([]c10TRec, n)
+	for i := range want {
+		off := (rng.Intn(2*839+1) - 839) * 60 // whole minutes within +-13:59
+		want[i] = c10TRec{T: time.Unix(rng.Int63n(4e9), int64(rng.Intn(1e9))).In(time.FixedZone("", off)), S: c10RandStr(rng, 20)}
+	}
+	var file bytes.Buffer
+	enc, err := avro.NewEncoderFor[c10TRec](&file, avro.Compression(codec), 96)
+	if err != nil {
+		return T("err", A("encoder"), A(clean(err.Error())))
+	}
+	for i := range want {
+		if err := enc.Encode(&want[i]); err != nil {
+			return T("err", A("encode"), A(clean(err.Error())))
+		}
+	}
+	if err := enc.Flush(); err != nil {
+		return T("err", A("flush"), A(clean(err.Error())))
+	}
+	data := file.Bytes()
+	nblocks := c10CountBlocks(data)
+	type snap struct{ name, text string }
+	var kept []c10TRec
+	var snaps []snap
+	var banks []*avro.ResourceBank
+	describe := func(r *c10TRec) snap {
+		return snap{strings.Clone(r.T.Location().String()), strings.Clone(r.T.Format("2006-01-02T15:04:05.999999999Z07:00 MST") + "|" + r.S)}
+	}
+	err = avro.ReadFile(bufio.NewReader(bytes.NewReader(data)), c10TRec{}, func(p unsafe.Pointer, rb *avro.ResourceBank) error {
+		kept = append(kept, *(*c10TRec)(p))
+		snaps = append(snaps, describe(&kept[len(kept)-1]))
+		banks = append(banks, rb)
+		return nil
+	})
+	if err != nil {
+		return T("err", A("read"), A(clean(err.Error())))
+	}
+	if len(kept) != n {
+		return T("err", A("count"), I(int64(len(kept))))
+	}
+	for i := range data {
+		data[i] = 0xAA
+	}
+	for i := range kept {
+		_, wantOff := want[i].T.Zone()
+		_, gotOff := kept[i].T.Zone()
+		if !kept[i].T.Equal(want[i].T) || gotOff != wantOff || kept[i].S != want[i].S {
+			return T("corrupt", I(int64(i)), A("value"))
+		}
+		if now := describe(&kept[i]); now != snaps[i] {
+			what := "text"
+			if now.name != snaps[i].name {
+				what = "zone-name"
+			}
+			return T("corrupt", I(int64(i)), A(what))
+		}
+	}
+	for _, rb := range banks {
+		rb.Close()
+	}
+	return T("ok", A(fmt.Sprintf("kept=%d", n)), A("closed=0"), A(fmt.Sprintf("blocks=%d", nblocks)))
+}
+
 // number of data blocks of a container file the harness wrote itself (header: magic, one meta map block, sync)
 func c10CountBlocks(data []byte) int {
 	pos := 4
@@ -801,6 +881,9 @@ func genC10(c *ctx) {
 		nrecs := 1 + c.rng.Intn(c.scale(40, 120))
 		pct := []int{0, 30, 60, 100}[c.rng.Intn(4)]
 		c.emit(T("fileretain", A(codecs[i%3]), I(int64(bs)), I(int64(nrecs)), I(c.rng.Int63n(1<<40)), I(int64(pct))))
+	}
+	for i := 0; i < c.scale(6, 40); i++ {
+		c.emit(T("timeretain", A(codecs[i%3]), I(c.rng.Int63n(1<<40))))
 	}
 	// strings, byte slices and map keys of 64 KiB and more, retained across blocks (seed 1 mod 4: the read is not stopped early)
 	for i := 0; i < c.scale(3, 12); i++ {
